@@ -68,7 +68,7 @@ var kinds = []string{"add", "update", "remove"}
 var resolvers = []string{"refuse", "accept", "merge", "over"}
 
 func gen(rng *rand.Rand, tier core.Tier, emit core.Emit) {
-	n := 150
+	n := 600
 	if tier == core.Thorough {
 		n = 4000
 	}
